@@ -211,7 +211,14 @@ def _borrowed_c02(an: Analysis) -> None:
     from ..engine import borrow
     from . import c02
 
-    borrow(an, c02.check, {"C02.1": "C03.7"})
+    # C02.3: the state context is left on every path out of a scope exit (a cancelled exit that skips it leaves the task - and the
+    # tasks it starts afterwards - looking at a scope it has left)
+    borrow(an, c02.check, {"C02.1": "C03.7", "C02.3": "C03.8"})
+    from . import c01
+
+    # C01.2: what a task (and the tasks it spawns) sees for a type is the entered instance whenever one is present - also one
+    # whose truth value is False
+    borrow(an, c01.check, {"C01.2": "C03.9"})
 
 
 def _ancestors(n: ast.AST | None):
